@@ -5,6 +5,11 @@ CONSTANTS
   VarLong = 3
   Padding = FALSE
   RelFpuOK = FALSE
+  RefKinds = {"abs", "var", "rel"}
+  Sects = {}
+  Quals = {8}
+  Alias = {}
+  CaseSens = FALSE
   Pages = {}
   PageReset = TRUE
   SelfKinds = {"labs", "lvar", "lrel"}
